@@ -171,6 +171,39 @@ def run(rep, tier, seed, model_ok=True, effort=1):
             old_a, new_a = rwcheck.announced(logs_r)
             if code_r == 0 and new_a:
                 rwcheck.rfd_cases(impl, prj_real, spec, new_a, items, meta)
+    # corpus: a file whose patterns are not touched by this bump but whose text on disk is stale must be treated alike by --dry and the real run
+    for vp, cur, flags_, fname, pat_, stale_text, date_ in [
+            ("MAJOR.MINOR.PATCH", "1.2.3", ["--patch"], "notes.md", "release MAJOR.MINOR", "this is release 1.1 of the tool\n", "2026-10-01"),
+            ("vYYYY0M.BUILD[-TAG]", "v202603.1001", [], "LICENSE", "Copyright (c) YYYY", "Copyright (c) 2024 someone\n", "2026-03-20"),
+            ("MAJOR.MINOR.PATCH", "1.2.3", ["--patch"], "notes.md", "release MAJOR.MINOR", "no occurrence here at all\n", "2026-10-01")]:
+        projs = []
+        for _ in range(2):
+            prj = project.TempProject(vp, cur, files={"a.txt": ["ver = {version}"], fname: [pat_]}, contents={fname: stale_text})
+            prj.__enter__()
+            projs.append(prj)
+        try:
+            prj_dry, prj_real = projs
+            args = ["update", "--no-fetch", "--date", date_] + flags_
+            before = prj_dry.snapshot()
+            code_d, out_d, logs_d, _ = prj_dry.run(impl, args + ["--dry"])
+            code_r, out_r, logs_r, _ = prj_real.run(impl, args)
+            after_r = prj_real.snapshot()
+            rep.case(("stale-untouched-pattern", vp, pat_, stale_text))
+            inp = dict(version_pattern=vp, current_version=cur, args=args, file=fname, pattern=pat_, content=stale_text, dry_exit=code_d, real_exit=code_r)
+            if code_d == 0 and code_r != 0:
+                rep.violation("--dry exits 0 but the real run fails", input=inp, **{"class": "dry-ok-real-fails"})
+            elif code_d == 0:
+                try:
+                    applied = apply_unified(out_d.rstrip("\n"), {p_: b.decode("utf-8") for p_, b in before.items()})
+                    for p_, t in applied.items():
+                        if after_r.get(p_) != t.encode("utf-8"):
+                            rep.violation("applying the --dry diff does not give the real run's %s" % p_, input=dict(inp, applied=t, real=after_r.get(p_, b"").decode("utf-8", "replace")), **{"class": "diff-differs"})
+                            break
+                except DiffError as ex:
+                    rep.violation("the diff printed by --dry cannot be applied: %s" % ex, input=inp, **{"class": "diff-unappliable"})
+        finally:
+            for prj in projs:
+                prj.__exit__(None, None, None)
     if model_ok and items:
         rwcheck.eval_rfd(rep, items, meta)
 
